@@ -72,6 +72,7 @@ def _from_radials(chk, prog, FR):
         return
     lp = ls[0]
     where = lp["where"]
+    pre_loop(chk, prog, fn, FR, lp)
     names = {fn.local_name(l): l for l in lp["tracked"]}
     # roles: result accumulator (Vec<Sweep>), pending run (Vec<Radial>), label (Option<u8>), iterator
     role = {}
@@ -174,6 +175,43 @@ def _from_radials(chk, prog, FR):
 
 
 STABLE_SORTS = ("alloc::slice::<impl [T]>::sort_by_key", "alloc::slice::<impl [T]>::sort_by", "alloc::slice::<impl [T]>::sort_by_cached_key")
+
+
+def pre_loop(chk, prog, fn, FR, lp):
+    """no result is returned before the grouping loop, except an empty list for an empty input"""
+    try:
+        pre = [(c_, l_) for c_, l_ in loops.paths(loops.entry_env(prog, fn, lp["head"])[1]) if isinstance(l_, tuple) and l_ and l_[0] != "@join"]
+    except sym.Undecided as e:
+        chk.blind("R-LIN", FR, "code before the grouping loop could not be evaluated: %s" % e, fn.where())
+        return
+    arg = P(fn.local_name(1) or "arg1")
+    bad = []
+    for c_, l_ in pre:
+        try:
+            empty = listalg.seq(l_) == []
+        except Exception:
+            empty = False
+        on_empty = any(_says_empty(k, arg) for k in c_)
+        if not (empty and on_empty):
+            bad.append("returns %s when %s" % (show(l_)[:80], "; ".join(show(k[0])[:60] for k in c_)[:160]))
+    chk.ob("R-LIN", FR, not bad, "nothing is returned before the grouping loop (at most the empty list for an empty input)" if not bad else
+           "a result is produced without running the grouping loop: " + "; ".join(bad)[:400], fn.where(), key="pre-loop-returns")
+
+
+def _says_empty(k, arg):
+    """condition k holds only when the input vector is empty: is_empty(arg) is true, or len(arg) is 0"""
+    t = k[0]
+    def mentions(x):
+        return x == arg or (isinstance(x, tuple) and any(mentions(y) for y in x))
+    if not mentions(t):
+        return False
+    if t[0] == "call" and "is_empty" in t[1]:
+        return len(k) == 2 and k[1] is True
+    if t[0] in ("len",) or (t[0] == "call" and t[1].endswith("::len")):
+        return len(k) == 3 and k[2] == ((0, 0),)
+    if t[0] == "eq" and any(sym.is_c(x) and x[1] == 0 for x in t[1:]) and any(isinstance(x, tuple) and (x[0] == "len" or (x[0] == "call" and x[1].endswith("::len"))) for x in t[1:]):
+        return len(k) == 2 and k[1] is True
+    return False
 
 
 def _eq_verdict(conds, ea, eb):
